@@ -15,6 +15,7 @@ type Cond struct {
 	V    ssa.Value
 	Val  bool
 	At   *ssa.BasicBlock
+	Step int // index into Path.Blocks of the block this condition terminates
 }
 
 // Path is one acyclic (each CFG edge at most EdgeVisits times) path through a region.
@@ -37,8 +38,8 @@ type PathOpts struct {
 	Start      *ssa.BasicBlock
 	Stop       func(b *ssa.BasicBlock) bool
 	Assume     func(p *Path, cond ssa.Value, term string) (val, known bool)
-	MaxPaths   int
-	EdgeVisits int
+	MaxPaths    int
+	BlockVisits int // how often one block may be entered on a path (default 2: one loop iteration; 3: two iterations)
 }
 
 func (p *Path) clone() *Path {
@@ -80,6 +81,48 @@ func (p *Path) Resolve(v ssa.Value) ssa.Value {
 			return v
 		}
 		v = r
+	}
+	return v
+}
+
+// ResolveMem is Resolve, plus: a load of a non-escaping local resolves to the
+// value last stored into it along this path (defer-spilled results, flags).
+func (p *Path) ResolveMem(v ssa.Value) ssa.Value {
+	for i := 0; i < 8; i++ {
+		v = p.Resolve(v)
+		ld, ok := v.(*ssa.UnOp)
+		if !ok || ld.Op != token.MUL {
+			return v
+		}
+		al, ok := ld.X.(*ssa.Alloc)
+		if !ok || addrEscapes(al) {
+			return v
+		}
+		var last ssa.Value
+		lastIdx := -1
+		for bi, b := range p.Blocks {
+			if b == ld.Block() {
+				lastIdx = bi
+			}
+		}
+	scan:
+		for bi, b := range p.Blocks {
+			if bi > lastIdx {
+				break
+			}
+			for _, in := range b.Instrs {
+				if bi == lastIdx && in == ssa.Instruction(ld) {
+					break scan
+				}
+				if st, ok := in.(*ssa.Store); ok && st.Addr == ssa.Value(al) {
+					last = st.Val
+				}
+			}
+		}
+		if last == nil {
+			return v
+		}
+		v = last
 	}
 	return v
 }
@@ -155,8 +198,8 @@ func EnumPaths(fn *ssa.Function, opts PathOpts) ([]*Path, error) {
 	if opts.MaxPaths == 0 {
 		opts.MaxPaths = 100000
 	}
-	if opts.EdgeVisits == 0 {
-		opts.EdgeVisits = 1
+	if opts.BlockVisits == 0 {
+		opts.BlockVisits = 2
 	}
 	start := opts.Start
 	if start == nil {
@@ -164,6 +207,7 @@ func EnumPaths(fn *ssa.Function, opts PathOpts) ([]*Path, error) {
 	}
 	var out []*Path
 	var err error
+	loops := Loops(fn)
 	init := &Path{Fn: fn, Phi: map[*ssa.Phi]ssa.Value{}, live: map[string]bool{}, eq: map[string]string{}, neq: map[string][]string{}, edge: map[[2]int]int{}}
 	var rec func(p *Path, b *ssa.BasicBlock, from *ssa.BasicBlock)
 	rec = func(p *Path, b *ssa.BasicBlock, from *ssa.BasicBlock) {
@@ -201,6 +245,45 @@ func EnumPaths(fn *ssa.Function, opts PathOpts) ([]*Path, error) {
 			p.Cut = true
 			out = append(out, p)
 			return
+		}
+		// re-entering a block (next loop iteration): facts about conditions evaluated inside that loop are stale
+		revisit := false
+		for _, vb := range p.Blocks {
+			if vb == b {
+				revisit = true
+			}
+		}
+		if revisit {
+			var inLoop map[*ssa.BasicBlock]bool
+			for _, l := range loops {
+				if l.Blocks[b] && (inLoop == nil || len(l.Blocks) > len(inLoop)) {
+					inLoop = l.Blocks
+				}
+			}
+			stale := map[string]bool{}
+			for _, cd := range p.Conds {
+				if inLoop == nil || inLoop[cd.At] {
+					stale[cd.Term] = true
+					if k, _, ok := eqConst(cd.V, p); ok {
+						stale["eq:"+k] = true
+					}
+				}
+			}
+			for t := range p.live {
+				if stale[t] {
+					delete(p.live, t)
+				}
+			}
+			for t := range p.eq {
+				if stale["eq:"+t] {
+					delete(p.eq, t)
+				}
+			}
+			for t := range p.neq {
+				if stale["eq:"+t] {
+					delete(p.neq, t)
+				}
+			}
 		}
 		p.Blocks = append(p.Blocks, b)
 		// stores invalidate atoms
@@ -289,7 +372,7 @@ func EnumPaths(fn *ssa.Function, opts PathOpts) ([]*Path, error) {
 			}
 			take := func(q *Path, branch bool) {
 				posVal := branch != neg
-				q.Conds = append(q.Conds, Cond{Term: term, V: cv, Val: posVal, At: b})
+				q.Conds = append(q.Conds, Cond{Term: term, V: cv, Val: posVal, At: b, Step: len(q.Blocks) - 1})
 				q.live[term] = posVal
 				if isEq {
 					bo := cv.(*ssa.BinOp)
@@ -307,8 +390,8 @@ func EnumPaths(fn *ssa.Function, opts PathOpts) ([]*Path, error) {
 				if !branch {
 					succ = b.Succs[1]
 				}
-				k := [2]int{b.Index, succ.Index}
-				if q.edge[k] >= opts.EdgeVisits {
+				k := [2]int{succ.Index, 0}
+				if q.edge[k] >= opts.BlockVisits {
 					return
 				}
 				q.edge[k]++
@@ -329,14 +412,15 @@ func EnumPaths(fn *ssa.Function, opts PathOpts) ([]*Path, error) {
 				return
 			}
 			succ := b.Succs[0]
-			k := [2]int{b.Index, succ.Index}
-			if p.edge[k] >= opts.EdgeVisits {
+			k := [2]int{succ.Index, 0}
+			if p.edge[k] >= opts.BlockVisits {
 				return
 			}
 			p.edge[k]++
 			rec(p, succ, b)
 		}
 	}
+	init.edge[[2]int{start.Index, 0}] = 1
 	rec(init, start, nil)
 	return out, err
 }
@@ -399,7 +483,7 @@ func (p *Path) ReturnsNilError() (isNil, known bool) {
 	if !ok || len(r.Results) == 0 {
 		return false, false
 	}
-	v := p.Resolve(r.Results[len(r.Results)-1])
+	v := p.ResolveMem(r.Results[len(r.Results)-1])
 	if c, ok := v.(*ssa.Const); ok {
 		return c.Value == nil, true
 	}
